@@ -51,7 +51,41 @@ def rooted_txn(an, fn, v, own_txn_locals):
         return True
     if v[0] == "ptrcast":
         return rooted_txn(an, fn, v[2], own_txn_locals)
+    if getattr(fn, "kind", None) == "Closure":
+        # a closure uses the transaction it captured: (*env).i, possibly through a reborrow - the caller's when the
+        # enclosing function put its own transaction there
+        x = v
+        for _ in range(4):
+            if x[0] in ("init", "ref", "byref") and isinstance(x[1], tuple):
+                x = x[1]
+            elif x[0] == "deref":
+                x = x[1]
+            else:
+                break
+        if x[0] == "field" and x[1] == ("deref", ("param", 1)) and an.F is not None:
+            parent = an.F.fns.get(fn.parent)
+            if parent is not None:
+                from ..sym import Analysis
+                pa = _an_cache(an.F, parent)
+                for val in pa.stmt_val.values():
+                    if val is not None and val[0] == "agg" and val[1] == "closure:" + fn.path and x[2] < len(val[2]):
+                        op = val[2][x[2]]
+                        own_p = set()
+                        return rooted_txn(pa, parent, op, own_p) or \
+                            (op[0] == "ref" and op[1][0] == "deref" and rooted_txn(pa, parent, op[1][1], own_p)) or \
+                            (op[0] in ("ref", "byref") and isinstance(op[1], tuple) and rooted_txn(pa, parent, op[1], own_p))
     return False
+
+
+_AN = {}
+
+
+def _an_cache(F, fn):
+    from ..sym import Analysis
+    k = (id(F), fn.path)
+    if k not in _AN:
+        _AN[k] = Analysis(fn, F)
+    return _AN[k]
 
 
 def own_write_txn_locals(ctx, s, fn):
